@@ -1672,6 +1672,14 @@ class Authenticated(BaseClientHandler):
             )
             return None
 
+        # A message set of message sequence numbers was worked out by the
+        # client before it has seen the EXPUNGEs we still have pending for it:
+        # sending them now and then using the numbers would copy some other
+        # message. Like FETCH, STORE and SEARCH we refuse. The client will do
+        # a NOOP (or use UIDs, which are not affected.)
+        #
+        if self.pending_expunges() and not cmd.uid_command:
+            raise No("There are pending EXPUNGEs.")
         await self.send_pending_notifications()
 
         # Wait until the mailbox gives us the go-ahead to run the command.
@@ -1739,6 +1747,10 @@ class Authenticated(BaseClientHandler):
         if self.examine:
             raise No("Mailbox is read-only")
 
+        # (See `do_copy()`: message sequence numbers and pending EXPUNGEs.)
+        #
+        if self.pending_expunges() and not cmd.uid_command:
+            raise No("There are pending EXPUNGEs.")
         await self.send_pending_notifications()
 
         # Phase 1: Copy messages to the destination mailbox.
